@@ -116,6 +116,26 @@ def funnel_case(a):
         r = run_tool([FT["tar2sqfs"], "-q", "-c", "gzip", "-r", sps, img], stdin=data, timeout=30)
         judge("tar2sqfs --root-becomes", r, lambda: None if (packcheck.decode(img)[0] is not None and sorted(packcheck.decode(img)[0].tree) == [b"", b"x"]) else
               "tree is %r, expected only x" % (sorted(packcheck.decode(img)[0].tree)[:5] if packcheck.decode(img)[0] is not None else None))
+        # 5. tar2sqfs --exclude-dir: the pattern on the command line and the member name in the archive both go through the funnel before they are compared
+        def tree_is(want):
+            im_, er_ = packcheck.decode(img)
+            if im_ is None:
+                return "undecodable: %s" % er_
+            return None if sorted(im_.tree) == want else "tree is %r, expected %r" % (sorted(im_.tree)[:6], want)
+        try:
+            data = tarmk.archive([TE(b"keep", "file", content=b"k"), TE(sp, "file", content=b"x")], "gnu")
+        except ValueError:
+            data = None
+        if data is not None:
+            if os.path.exists(img):
+                os.unlink(img)
+            r = run_tool([FT["tar2sqfs"], "-q", "-c", "gzip", "-E", "d/f", img], stdin=data, timeout=30)
+            judge("tar2sqfs --exclude-dir vs member name", r, lambda: tree_is([b"", b"keep"]))
+        data = tarmk.archive([TE(b"keep", "file", content=b"k"), TE(b"d", "dir"), TE(b"d/f", "file", content=b"x")], "gnu")
+        if os.path.exists(img):
+            os.unlink(img)
+        r = run_tool([FT["tar2sqfs"], "-q", "-c", "gzip", "-E", sps, img], stdin=data, timeout=30)
+        judge("tar2sqfs --exclude-dir pattern", r, lambda: tree_is([b"", b"d", b"keep"]))
         return sp, good, out
     finally:
         shutil.rmtree(wd, ignore_errors=True)
@@ -213,7 +233,7 @@ def main():
                 cr.violation("C18|funnel|rdsquashfs unpack path|%s" % ("attributes-not-applied" if ru.rc == 0 else "fails"),
                              "rdsquashfs -u / -p R %s on an image with xattrs: rc=%d %s" % (" ".join(uopts), ru.rc, ru.err.decode("latin1")[-300:]),
                              files={"case.json": json.dumps({"unpack": uopts})})
-        cr.coverage["funnel_spellings"] = {"clean_equivalents": len(good), "with_dotdot": len(bad), "funnels": 8}
+        cr.coverage["funnel_spellings"] = {"clean_equivalents": len(good), "with_dotdot": len(bad), "funnels": 10}
         tot["evaluations"] += n_funnel
         cr.coverage.update(evaluations=tot["evaluations"],
                            distinct_nontrivial=tot["refused"] + tot["rewritten"],
